@@ -2070,7 +2070,10 @@ class Process:
 
     @wrap_exceptions
     def num_ctx_switches(
-        self, _ctxsw_re=re.compile(br'ctxt_switches:\t(\d+)')
+        self,
+        _ctxsw_re=re.compile(
+            br'^(?:non)?voluntary_ctxt_switches:\t(\d+)', re.MULTILINE
+        ),
     ):
         data = self._read_status_file()
         ctxsw = _ctxsw_re.findall(data)
@@ -2085,7 +2088,9 @@ class Process:
         return _common.pctxsw(int(ctxsw[0]), int(ctxsw[1]))
 
     @wrap_exceptions
-    def num_threads(self, _num_threads_re=re.compile(br'Threads:\t(\d+)')):
+    def num_threads(
+        self, _num_threads_re=re.compile(br'^Threads:\t(\d+)', re.MULTILINE)
+    ):
         # Using a re is faster than iterating over file line by line.
         data = self._read_status_file()
         return int(_num_threads_re.findall(data)[0])
@@ -2139,7 +2144,10 @@ class Process:
             return cext.proc_cpu_affinity_get(self.pid)
 
         def _get_eligible_cpus(
-            self, _re=re.compile(br"Cpus_allowed_list:\t(\d+)-(\d+)")
+            self,
+            _re=re.compile(
+                br"^Cpus_allowed_list:\t(\d+)-(\d+)", re.MULTILINE
+            ),
         ):
             # See: https://github.com/giampaolo/psutil/issues/956
             data = self._read_status_file()
@@ -2296,13 +2304,19 @@ class Process:
         return int(self._parse_stat_file()['ppid'])
 
     @wrap_exceptions
-    def uids(self, _uids_re=re.compile(br'Uid:\t(\d+)\t(\d+)\t(\d+)')):
+    def uids(
+        self,
+        _uids_re=re.compile(br'^Uid:\t(\d+)\t(\d+)\t(\d+)', re.MULTILINE),
+    ):
         data = self._read_status_file()
         real, effective, saved = _uids_re.findall(data)[0]
         return _common.puids(int(real), int(effective), int(saved))
 
     @wrap_exceptions
-    def gids(self, _gids_re=re.compile(br'Gid:\t(\d+)\t(\d+)\t(\d+)')):
+    def gids(
+        self,
+        _gids_re=re.compile(br'^Gid:\t(\d+)\t(\d+)\t(\d+)', re.MULTILINE),
+    ):
         data = self._read_status_file()
         real, effective, saved = _gids_re.findall(data)[0]
         return _common.pgids(int(real), int(effective), int(saved))
